@@ -23,8 +23,9 @@ def jobs(tier, seed):
     for v in (126, 127, 128, 129, 200): J(10, v)
     for kind in (7, 8):
         for v in ((255, 256) if tier == 'quick' else (254, 255, 256, 300)): J(kind, v)
+    for v in (494, 496): J(9, v)       # 494 parameters fill 255 blocks, 496 need 256
     if tier == 'thorough':
-        for v in (250, 490, 492, 494, 496, 520): J(9, v)       # 494 parameters fill 255 blocks, 496 need 256
+        for v in (250, 490, 492, 520): J(9, v)       # 494 parameters fill 255 blocks, 496 need 256
         for nm, sh, kw in (('frames-32767', dict(P=0, C=1, sub=1, F=32767), {}), ('last-frame-65535', dict(P=1, C=0, sub=0, F=40), {'first': 65496, 'analog': 'empty'}),
                            ('blocks-255', dict(P=1, C=0, sub=0, F=1), {'analog': 'empty', 'extras': [{'name': 'BIGA', 'type': 1, 'dims': [255, 250]}, {'name': 'BIGB', 'type': 1, 'dims': [255, 255]}, {'name': 'BIGC', 'type': 1, 'dims': [10, 1]}]})):
             out.append({'entry': 'h_load', 'harness': 'h_load.cpp', 'name': nm, 'cfg': {'gens': 2, 'dump': 1, 'obsfiles': 0}, 'shape': sh, 'lay': {}, 'opts': dict(kw, symbolic_meta=False), 'file': True})
